@@ -236,7 +236,7 @@ harness!(sse2, 34, c01_sse2_dna_c16_r2_m3_rows12, rows_body::<Dna, U16, _, 2, 3,
 harness!(sse2, 34, c01_sse2_dna_c32_r2_m2, rows_body::<Dna, U32, _, 2, 2, 0, 2, true, 0>(&sse2()));
 
 // --- AVX2 ----------------------------------------------------------------------------
-//@ C01 thorough 10800 AVX2 permute score, DNA, R=1 (L in 0..=32), M=2
+//@ C01 quick 800 AVX2 permute score, DNA, R=1 (L in 0..=32), M=2
 harness!(avx2, 34, c01_avx2_dna_r1_m2, rows_body::<Dna, U32, _, 1, 2, 0, 1, true, 0>(&avx2()));
 //@ C01 thorough 10800 AVX2 gather score, protein, R=1 (L in 0..=32), M=2
 harness!(avx2, 34, c01_avx2_protein_r1_m2, rows_body::<Protein, U32, _, 1, 2, 0, 1, true, 0>(&avx2()));
